@@ -694,6 +694,10 @@ func nontrivial(kind string, ms []*Model) bool {
 
 func main() {
 	logrus.SetLevel(logrus.PanicLevel)
+	if os.Getenv("VERIF_C16_PROBE") == "1" {
+		runProbe()
+		return
+	}
 	c := common.Setup("C16")
 	defer c.Finish()
 	c.Res.Rule = "each case = one relational model (tables with ~pk/~autoinc/sized strings/references, spread over 1-3 files with chosen blank-line layout) compiled from generated Sysl text, or a pair / chain of versions obtained by a random edit script (add/drop/retype column, add/drop table, key and autoincrement changes, add/drop/retarget reference, layout-only change); distinct = distinct abstract version list; non-trivial = creation: at least one reference or more than one file; delta: at least one column-level change between consecutive versions"
